@@ -21,6 +21,7 @@ type GenCfg struct {
 	PRejectSem  float64
 	PScribble   float64
 	PProbe      float64
+	PRelatives  float64 // probability of the related-operands macro
 	PImport     float64 // probability of the export/scale/import macro
 	ScalarFlav  []int   // weights of scalar flavours
 	Enum        string  // "", "alias", "misuse", "reject": enumeration appended after the random prefix
@@ -39,6 +40,11 @@ type Gen struct {
 	enumDone  bool
 	ops       []*OpDesc
 	wts       []int
+	// relativesMacro state
+	havePending bool
+	pendingPair [2]int
+	pendingOp   string
+	pendingBL   int
 }
 
 // ---- constants computed with the reference model ----
@@ -118,6 +124,10 @@ func (g *Gen) Next() (Call, bool) {
 			c := g.queue[0]
 			g.queue = g.queue[1:]
 			return c, true
+		}
+		if g.havePending {
+			g.flushPending()
+			continue
 		}
 		if !g.setupDone {
 			g.setupDone = true
@@ -305,6 +315,20 @@ func (g *Gen) limbStructured() *big.Int {
 }
 
 func (g *Gen) offCurveEnc() []byte {
+	if g.rng.Bool(0.2) {
+		// y in [p, 2^255) that is NOT the y of a curve point, either sign
+		for {
+			yv := int64(g.rng.Intn(19))
+			if _, ok := ref.RecoverX(big.NewInt(yv), 0); ok {
+				continue
+			}
+			e := alpha.LE32(new(big.Int).Add(big.NewInt(yv), alpha.P))
+			if g.rng.Bool(0.5) {
+				e[31] |= 0x80
+			}
+			return e[:]
+		}
+	}
 	for {
 		b := g.rng.Bytes(32)
 		yb := append([]byte{}, b...)
@@ -554,18 +578,7 @@ func (g *Gen) buildCall(op *OpDesc) (Call, bool) {
 				c.B, c.BNil, c.Fault = b, isNil, "reject/len"
 			case op.Name == "Scalar.SetCanonicalBytes" && rng.Bool(g.cfg.PRejectSem):
 				// >= l: exactly l, l+small, 2^256-1, random high
-				var v *big.Int
-				switch rng.Intn(4) {
-				case 0:
-					v = new(big.Int).Set(alpha.L)
-				case 1:
-					v = new(big.Int).Add(alpha.L, big.NewInt(int64(1+rng.Intn(5))))
-				case 2:
-					v = new(big.Int).Sub(new(big.Int).Lsh(big.NewInt(1), 256), big.NewInt(1))
-				default:
-					v = alpha.FromLE(rng.Bytes(32))
-					v.SetBit(v, 255, 1)
-				}
+				v := g.nonCanonicalScalar()
 				e := alpha.LE32(v)
 				c.B, c.Fault = e[:], "reject/sem"
 			default:
@@ -609,6 +622,51 @@ func (g *Gen) buildCall(op *OpDesc) (Call, bool) {
 		c.Fault = "reject/sem" // random element quadruples are invalid with overwhelming probability
 	}
 	return c, true
+}
+
+// nonCanonicalScalar returns a 256-bit value >= l from assorted bands.
+func (g *Gen) nonCanonicalScalar() *big.Int {
+	rng := g.rng
+	two256 := new(big.Int).Lsh(big.NewInt(1), 256)
+	var v *big.Int
+	switch rng.Intn(8) {
+	case 0:
+		v = new(big.Int).Set(alpha.L)
+	case 1:
+		v = new(big.Int).Add(alpha.L, big.NewInt(int64(1+rng.Intn(5))))
+	case 2:
+		v = new(big.Int).Sub(two256, big.NewInt(1))
+	case 3:
+		v = alpha.FromLE(rng.Bytes(32))
+		v.SetBit(v, 255, 1)
+	case 4: // l + 2^k
+		v = new(big.Int).Lsh(big.NewInt(1), uint(rng.Intn(252)))
+		v.Add(v, alpha.L)
+	case 5: // uniformly in [l, 2^253)
+		v = alpha.FromLE(rng.Bytes(32))
+		v.Mod(v, new(big.Int).Sub(new(big.Int).Lsh(big.NewInt(1), 253), alpha.L))
+		v.Add(v, alpha.L)
+	case 6: // top byte 0x10, random below (almost surely >= l), or a multiple of l
+		if rng.Bool(0.5) {
+			b := rng.Bytes(32)
+			b[31] = 0x10
+			v = alpha.FromLE(b)
+			if v.Cmp(alpha.L) < 0 {
+				v.Add(v, alpha.L)
+			}
+		} else {
+			v = new(big.Int).Mul(alpha.L, big.NewInt(int64(2+rng.Intn(14))))
+		}
+	default: // uniformly in [l, 2^256)
+		v = alpha.FromLE(rng.Bytes(32))
+		if v.Cmp(alpha.L) < 0 {
+			v.Add(v, alpha.L)
+		}
+	}
+	if v.Cmp(two256) >= 0 {
+		v.Sub(two256, big.NewInt(1))
+	}
+	return v
 }
 
 // validInputFor returns an input of the right length that the setter accepts.
@@ -708,6 +766,11 @@ func (g *Gen) randomStep() {
 	if len(w.P) > 0 && len(w.E) >= 5 && rng.Bool(cfg.PImport) {
 		g.importMacro()
 		return
+	}
+	if len(w.P) >= 3 && rng.Bool(cfg.PRelatives) {
+		if g.relativesMacro() {
+			return
+		}
 	}
 	if len(w.P) > 0 && rng.Bool(cfg.PMisuse) {
 		if g.misuseStep() {
@@ -814,6 +877,11 @@ func (g *Gen) importMacro() {
 		j := rng.Intn(4)
 		e[(j+1)%4] = e[j]
 		fault = "reject/sem"
+	case 7:
+		// XY = ZT still holds, the curve equation does not: X and T scaled once more
+		g.push(Call{Op: "Element.Multiply", R: e[0], E: []int{e[0], lam}})
+		g.push(Call{Op: "Element.Multiply", R: e[3], E: []int{e[3], lam}})
+		fault = "reject/sem"
 	case 5:
 		// a VALID transformation: (X : Y : -Z : -T) is the point (-x, -y) = P + (0,-1),
 		// sharing X and Y with the source representation
@@ -828,6 +896,102 @@ func (g *Gen) importMacro() {
 		g.push(Call{Op: "H.ZeroPoint", R: dst})
 	}
 	g.push(Call{Op: "Point.SetExtendedCoordinates", R: dst, E: append([]int{}, e...), Fault: fault})
+}
+
+// relativesMacro makes a second operand that is algebraically related to an
+// existing point - an equal value in different storage, possibly in another
+// projective representation, its negative, or the point plus a small-order
+// point - and then feeds both to a two-operand operation. Equal values at
+// different addresses are what pointer-based fast paths get wrong.
+func (g *Gen) relativesMacro() bool {
+	rng := g.rng
+	w := g.r.W
+	ip := g.initPoints()
+	if len(ip) == 0 {
+		return false
+	}
+	p := ip[rng.Intn(len(ip))]
+	q := rng.Intn(len(w.P))
+	for q == p {
+		q = rng.Intn(len(w.P))
+	}
+	switch rng.Intn(6) {
+	case 0:
+		g.push(Call{Op: "Point.Set", R: q, P: []int{p}})
+	case 1:
+		g.push(Call{Op: "Point.Negate", R: q, P: []int{p}})
+	case 2: // same point, fresh representation with Z = 1 (encode, decode)
+		g.push(Call{Op: "Point.Bytes", R: p})
+		g.pendingBL = q + 1
+	case 3: // same point, other representation through a scaled re-import
+		if len(w.E) >= 5 {
+			perm := permOf(rng, len(w.E))
+			e, lam := perm[:4], perm[4]
+			g.push(Call{Op: "Point.ExtendedCoordinates", R: p, E: append([]int{}, e...)})
+			for k := 0; k < 4; k++ {
+				g.push(Call{Op: "Element.Multiply", R: e[k], E: []int{e[k], lam}})
+			}
+			g.push(Call{Op: "Point.SetExtendedCoordinates", R: q, E: append([]int{}, e...)})
+		} else {
+			g.push(Call{Op: "Point.Set", R: q, P: []int{p}})
+		}
+	case 4: // the negative in another representation: -(p + p) + p
+		g.push(Call{Op: "Point.Add", R: q, P: []int{p, p}})
+		g.push(Call{Op: "Point.Subtract", R: q, P: []int{p, q}})
+	default: // p plus a small-order point
+		e := torsionEnc[1+rng.Intn(7)]
+		g.push(Call{Op: "Point.SetBytes", R: q, HasB: true, B: e[:]})
+		g.push(Call{Op: "Point.Add", R: q, P: []int{p, q}})
+	}
+	g.pendingPair = [2]int{p, q}
+	g.pendingOp = []string{"Point.Add", "Point.Subtract", "Point.Equal", "Point.Add", "Point.Subtract", "Point.VarTimeMultiScalarMult", "Point.MultiScalarMult"}[rng.Intn(7)]
+	g.havePending = true
+	return true
+}
+
+// flushPending emits the two-operand operation prepared by relativesMacro
+// (after the preparation steps have executed, so that ledger indices exist).
+func (g *Gen) flushPending() {
+	rng := g.rng
+	w := g.r.W
+	g.havePending = false
+	p, q := g.pendingPair[0], g.pendingPair[1]
+	if g.pendingBL > 0 {
+		// decode the encoding that Point.Bytes just returned into slot q
+		k := -1
+		for i := len(g.r.Ledger) - 1; i >= 0; i-- {
+			if g.r.Ledger[i].Kind == "bytes" && len(g.r.Ledger[i].B) == 32 {
+				k = i
+				break
+			}
+		}
+		dst := g.pendingBL - 1
+		g.pendingBL = 0
+		if k >= 0 {
+			g.push(Call{Op: "Point.SetBytes", R: dst, BL: k + 1})
+		}
+		g.havePending = true // the operation itself follows in the next round
+		return
+	}
+	r := rng.Intn(len(w.P))
+	if rng.Bool(0.3) {
+		r = []int{p, q}[rng.Intn(2)]
+	}
+	ops := []int{p, q}
+	if rng.Bool(0.5) {
+		ops = []int{q, p}
+	}
+	switch g.pendingOp {
+	case "Point.Equal":
+		g.push(Call{Op: "Point.Equal", R: ops[0], P: []int{ops[1]}})
+	case "Point.VarTimeMultiScalarMult", "Point.MultiScalarMult":
+		if len(w.S) == 0 {
+			return
+		}
+		g.push(Call{Op: g.pendingOp, R: r, P: []int{ops[0], ops[1]}, S: []int{rng.Intn(len(w.S)), rng.Intn(len(w.S))}})
+	default:
+		g.push(Call{Op: g.pendingOp, R: r, P: []int{ops[0], ops[1]}})
+	}
 }
 
 // misuseStep injects a zero-value Point at one input position, or a length
@@ -1300,18 +1464,10 @@ func (g *Gen) enumReject() {
 					// input aliasing a previously returned encoding that is then rejected is impossible; accepted one:
 					g.push(Call{Op: op.Name, R: rng.Intn(pool), HasB: true, B: g.validPointEnc()})
 				case "Scalar.SetCanonicalBytes":
-					for k := 0; k < 4; k++ {
-						var v *big.Int
-						switch k {
-						case 0:
+					for k := 0; k < 8; k++ {
+						v := g.nonCanonicalScalar()
+						if k == 0 {
 							v = new(big.Int).Set(alpha.L)
-						case 1:
-							v = new(big.Int).Add(alpha.L, big.NewInt(1))
-						case 2:
-							v = new(big.Int).Sub(new(big.Int).Lsh(big.NewInt(1), 256), big.NewInt(1))
-						default:
-							v = alpha.FromLE(rng.Bytes(32))
-							v.SetBit(v, 255, 1)
 						}
 						e := alpha.LE32(v)
 						g.push(Call{Op: op.Name, R: rng.Intn(pool), HasB: true, B: e[:], Fault: "reject/sem"})
